@@ -310,3 +310,17 @@ func init() {
 		}
 	}
 }
+
+func init() {
+	debugRules["r5"] = func(c *Ctx, r *Report) {
+		ruleSpecIndices(c, r, "")
+		ruleCtorReopen(c, r, "")
+		ruleFlushFailStop(c, r, "")
+		ruleDeferFlush(c, r, "", "", "lzma", "cmd/gxz")
+		ruleEncoderDictArgs(c, r, "")
+		ruleFilterWriterDict(c, r, "")
+		rulePeekLen(c, r, "")
+		ruleDiscardFeed(c, r, "")
+		ruleByteAtGuards(c, r, "")
+	}
+}
